@@ -1,0 +1,24 @@
+//go:build verif
+
+package atomic
+
+import "sync/atomic"
+
+// verification hook (build tag verif): called before every atomic step of Value.
+var verifHook atomic.Pointer[func(op string)]
+
+// VerifSetHook installs f (nil removes it) as the function called before every
+// Get/Load/Store/CompareAndSwap.
+func VerifSetHook(f func(op string)) {
+	if f == nil {
+		verifHook.Store(nil)
+		return
+	}
+	verifHook.Store(&f)
+}
+
+func verifYield(op string) {
+	if h := verifHook.Load(); h != nil {
+		(*h)(op)
+	}
+}
